@@ -342,6 +342,8 @@ func (h *stdioHost) stop() {
 		h.c.out <- nil // ends the consumer
 		h.io.WG.Wait() // ... and its last write of the state file
 		h.c.out = nil
+		// what siostd does on its way out: Stdio.Stop writes the state it tracked
+		h.io.Stop(context.Background())
 	}
 	h.cancel()
 }
@@ -403,10 +405,23 @@ func c15ViaStdio(hist []string) [][2]string {
 	written := false
 	for i, name := range hist {
 		if name == "restart" || name == "restart-drain" {
-			h.stop()
-			h, bad = bootStdio(c15File, written)
-			if bad != "" {
-				return [][2]string{{"stdio-reboot-failed/after-" + strings.Join(hist[:i], ","), bad}}
+			before := liveKey(h.c)
+			// "restart-drain" has no meaning of its own for this host: here it is a process life without any
+			// traffic - boot, stop, boot again
+			lives := 1
+			if name == "restart-drain" {
+				lives = 2
+			}
+			for l := 0; l < lives; l++ {
+				h.stop()
+				h, bad = bootStdio(c15File, written)
+				if bad != "" {
+					return [][2]string{{"stdio-reboot-failed/after-" + strings.Join(hist[:i], ","), bad}}
+				}
+				if after := liveKey(h.c); written && after != before {
+					return [][2]string{{fmt.Sprintf("stdio-restart-changes-the-crew/life-%d", l+1),
+						fmt.Sprintf("history %v with sio.Stdio as the host: before the restart the crew is [%s]; booted from the state file Stdio wrote (process life %d without traffic) it is [%s]", hist[:i+1], before, l+1, after)}}
+				}
 			}
 			continue
 		}
